@@ -602,6 +602,10 @@ class VarsManager(object):
         """
         if self.complex_vars[name] != True:  # if not polar (already xy)
             return
+        for l in self.same_list:
+            if name + "r" in l:
+                # a shared radius can not be expressed in Cartesian form
+                return
         r = self.variables[name + "r"]
         p = self.variables[name + "i"]
         x = r * tf.cos(p)
@@ -739,7 +743,15 @@ class VarsManager(object):
                 for name_r in self.complex_vars[name]:
                     self.variables[name_r[:-1] + "i"].assign_add(np.pi)
             else:
-                p.assign_add(np.pi)
+                # all variables sharing this radius change their sign together
+                phases = {id(p): p}
+                for l in self.same_list:
+                    if name + "r" in l:
+                        for name_r in l:
+                            pi = self.variables.get(name_r[:-1] + "i", p)
+                            phases[id(pi)] = pi
+                for pi in phases.values():
+                    pi.assign(self._std_polar_angle(pi + np.pi))
         p.assign(self._std_polar_angle(p))
 
     def std_polar_all(self):  # std polar expression: r>0, -pi<p<pi
